@@ -153,10 +153,63 @@ def _retarget(term, slot, new):
         term[slot] = new
 
 
+def _locals_in(obj, acc):
+    if isinstance(obj, dict):
+        if "l" in obj and "p" in obj and isinstance(obj.get("l"), int) and isinstance(obj.get("p"), list) and len(obj) == 2:
+            acc.add(obj["l"])
+            for e in obj["p"]:
+                if isinstance(e, dict) and "idx" in e:
+                    acc.add(e["idx"])
+            return
+        for v in obj.values():
+            _locals_in(v, acc)
+    elif isinstance(obj, list):
+        for v in obj:
+            _locals_in(v, acc)
+
+
+def _rename_locals(obj, mapping):
+    if isinstance(obj, dict):
+        if "l" in obj and "p" in obj and isinstance(obj.get("l"), int) and isinstance(obj.get("p"), list) and len(obj) == 2:
+            return {"l": mapping.get(obj["l"], obj["l"]),
+                    "p": [dict(e, idx=mapping.get(e["idx"], e["idx"])) if isinstance(e, dict) and "idx" in e else e for e in obj["p"]]}
+        return {k: _rename_locals(v, mapping) for k, v in obj.items()}
+    if isinstance(obj, list):
+        return [_rename_locals(v, mapping) for v in obj]
+    return obj
+
+
 def _clone_chain(body, chain):
+    """Append a copy of the blocks `chain` (consecutive in control flow); returns the index of the first copy.
+    Temporaries that are assigned by a statement inside the chain and mentioned nowhere outside it get fresh locals in
+    the copy, so that they stay single-assignment (the analyses rely on that for `&x` / `&mut x` temporaries)."""
+    inside = set()
+    stmt_defs = set()
+    for ci in chain:
+        blk = body["blocks"][ci]
+        _locals_in(blk["stmts"], inside)
+        _locals_in(blk.get("term"), inside)
+        for st in blk["stmts"]:
+            if st.get("k") == "assign" and not st["lhs"].get("p"):
+                stmt_defs.add(st["lhs"]["l"])
+    outside = set()
+    cs = set(chain)
+    for i, blk in enumerate(body["blocks"]):
+        if i in cs:
+            continue
+        _locals_in(blk["stmts"], outside)
+        _locals_in(blk.get("term"), outside)
+    mapping = {}
+    for l in sorted(stmt_defs):
+        if l not in outside and l > body["argc"] and l != 0:
+            mapping[l] = len(body["locals"])
+            body["locals"].append(copy.deepcopy(body["locals"][l]))
     first = len(body["blocks"])
     for n, ci in enumerate(chain):
         cpy = copy.deepcopy(body["blocks"][ci])
+        if mapping:
+            cpy["stmts"] = _rename_locals(cpy["stmts"], mapping)
+            cpy["term"] = _rename_locals(cpy["term"], mapping)
         tt = cpy["term"]
         if n + 1 < len(chain) and tt.get("t") == chain[n + 1]:
             tt["t"] = first + n + 1
@@ -327,7 +380,7 @@ def _bool_chain(body, start, limit=4):
         k = t.get("k")
         if k == "switch":
             return chain if t.get("dty") == "bool" else None
-        if k == "goto" and isinstance(t.get("t"), int):
+        if k in ("goto", "drop") and isinstance(t.get("t"), int):
             cur = t["t"]
         elif k == "call" and isinstance(t.get("t"), int) and PURE_TAIL.search((t.get("f") or {}).get("path") or ""):
             cur = t["t"]
@@ -378,8 +431,27 @@ def split_bool_merges(body, max_new=60):
         if not pl or pl.get("p"):
             continue
         L = pl["l"]
-        if any(_assigns(body["blocks"][c], L) for c in chain[:-1]) or any(
-                s.get("k") == "assign" and s["lhs"].get("l") == L for s in body["blocks"][chain[-1]]["stmts"]):
+        # `_t = copy _named; switch _t` (possibly several copies along the chain): the decided local is the named one
+        bad = False
+        for ci in reversed(chain):
+            cb_ = body["blocks"][ci]
+            tt_ = cb_.get("term") or {}
+            if ci != chain[-1] and tt_.get("k") == "call" and (tt_.get("dest") or {}).get("l") == L:
+                bad = True
+                break
+            for s in reversed(cb_["stmts"]):
+                if s.get("k") in ("assign", "setdiscr") and s.get("lhs", {}).get("l") == L:
+                    rv = s.get("rv") or {}
+                    src = rv.get("a", {}) if rv.get("k") == "use" and not s["lhs"].get("p") else {}
+                    sp = src.get("c") or src.get("m")
+                    if sp and not sp.get("p"):
+                        L = sp["l"]
+                    else:
+                        bad = True
+                        break
+            if bad:
+                break
+        if bad or L is None:
             continue
         # every block of the chain after the head must have the previous one as its only predecessor
         if any(len(_preds(body, c)) != 1 for c in chain[1:]):
